@@ -33,6 +33,8 @@ PROCESSING = {
     'HeterEventQueueBase': ('doEnqueueItem', 'process', 'processOne', 'doProcessIf', 'clearEvents'),
 }
 ENQUEUE_MOVE_FNS = ('EventQueueBase::enqueue', 'EventQueueBase::doEnqueue', 'HeterEventQueueBase::doEnqueueItem', 'BufferedItem::set',
+                    'EventQueueBase::doInvokeFuncWithQueuedEvent', 'EventQueueBase::doInvokeFuncWithQueuedEventHelper', 'EventQueueBase::doDispatchQueuedEvent',
+                    'EventQueueBase::processIf', 'EventQueueBase::processUntil', 'EventQueueBase::process', 'EventQueueBase::processOne',
                     'BufferedUnion::set', 'EventQueueBase::takeEvent', 'EventQueueBase::peekEvent')    # heterogeneous enqueue/doEnqueue: C14.M
 
 KIND_TEXT = {
